@@ -66,6 +66,7 @@ func runHistory(c *fw.Ctx, cf config, h []int, from int) (key string, ok bool) {
 	desc := fmt.Sprintf("%s codec=%s blocksize=%d history=[%s]", cf.k.Name, cf.codec, cf.bs, encdrv.HistString(cf.k, h))
 	locus := fmt.Sprintf("%s|bs=%s", cf.k.Name, bsClass(cf))
 	ok = true
+	c.Begin(locus, desc)
 	detail := map[string]interface{}{"type": cf.k.Name, "codec": cf.codec, "blocksize": cf.bs, "history": encdrv.HistString(cf.k, h)}
 	panicked := c.Guard(locus, desc, detail, func() {
 		e, err := encdrv.New(cf.k, &buf, cf.codec, cf.bs)
